@@ -122,6 +122,8 @@ inductive RespData where
   | dkgResponses (l : List (Int × String × Bytes))
   | signInvitations (batchId : String) (initiator : Int) (parts : List (Int × String × Nat)) (src : List Task)
   | signProcess (batchId : String) (src : List Task) (parts : List (Int × String × List (String × Bytes)))
+  /-- payload of a `reinit_dkg` operation: the operations collected while replaying the dump (their types, in order) -/
+  | reinitOps (types : List String)
   deriving Repr, DecidableEq, Inhabited
 
 /-- map insert on association lists (replace or append) -/
